@@ -141,7 +141,46 @@ const TEXT_PROBES = [
   { id: "string-literals-needing-escapes", text: 'type X = "C:\\\\dir\\\\\\"my file\\"" | "line\\nbreak" | { k: "it\'s" };', values: ['C:\\dir\\"my file"', "line\nbreak", { k: "it's" }, "x"] },
 ];
 
+// recursion that passes through a pure alias (type Tree = TreeNode; TreeNode = { children: Tree[] }): how the cycle
+// leads back x alias chain length x which name the described parser meets first x how often each is mentioned
+function aliasRouteGrid() {
+  const out = [];
+  const backs = [
+    ["array", (n) => `{ v: number; children: ${n}[] }`, [{ v: 1, children: [] }, { v: 1, children: [{ v: 2, children: [] }] }, { v: 1, children: [{ v: "x", children: [] }] }, { v: 1 }]],
+    ["optional", (n) => `{ v: number; next?: ${n} }`, [{ v: 1 }, { v: 1, next: { v: 2 } }, { v: 1, next: { v: "x" } }, { next: 1 }]],
+    ["union", (n) => `{ v: number; next: ${n} | null }`, [{ v: 1, next: null }, { v: 1, next: { v: 2, next: null } }, { v: 1, next: { v: 2 } }, {}]],
+    ["tuple", (n) => `[number, ...${n}[]]`, [[1], [1, [2], [3, [4]]], [1, ["x"]], []]],
+  ];
+  const holders = [
+    ["alias-first", (a, r) => `{ a: ${a}; b: ${r} }`, (v) => ({ a: v, b: v })],
+    ["real-first", (a, r) => `{ a: ${r}; b: ${a} }`, (v) => ({ a: v, b: v })],
+    ["alias-twice", (a, r) => `{ a: ${a}; b: ${a}[]; c: ${r} }`, (v) => ({ a: v, b: [v], c: v })],
+    ["alias-only", (a) => `{ a: ${a}; b: ${a} }`, (v) => ({ a: v, b: v })],
+    ["real-only", (a, r) => `{ a: ${r}; b: ${r} }`, (v) => ({ a: v, b: v })],
+    ["in-union", (a, r) => `${a} | { other: ${r} } | ${r}[]`, (v) => v],
+  ];
+  for (const [bk, body, vals] of backs)
+    for (const chain of [1, 2])
+      for (const [hk, holder, wrap] of holders) {
+        const aliases = chain === 1 ? "type Tree = TreeNode;" : "type Tree = Mid;\ntype Mid = TreeNode;";
+        const text = `${aliases}\ntype TreeNode = ${body("Tree")};\ntype X = ${holder("Tree", "TreeNode")};`;
+        out.push({ id: `alias-route:${bk}/${chain}/${hk}`, text, values: vals.map(wrap) });
+      }
+  return out;
+}
+
 export async function run(ctx) {
+  if (ctx.shard === 1 % ctx.of) {
+    for (const p of aliasRouteGrid()) {
+      const text = `${p.text}\nexport const Parsers = parse.buildParsers<{ X: X }>();\n`;
+      const r = await compileText(ctx, text);
+      if (!r.parsers) throw new Error(`C15 grid program ${p.id} does not compile: ${JSON.stringify(r.res.diagnostics?.[0]?.message ?? r.res.outcome)}`);
+      const f = await roundTrip(ctx, r.parsers.X, "X", p.values);
+      ctx.judged();
+      ctx.count("alias_route_grid");
+      if (f) ctx.violation({ signature: `${f.clause}|${f.cause}|grid:${p.id.replace(/\/[^/]*$/, "")}`, clause: f.clause, detail: `${p.text}\n${f.detail}`.slice(0, 2000), replay: { kind: "describe", text, parser: "X", value: null, hasValue: false } });
+    }
+  }
   if (ctx.shard === 0) {
     for (const p of TEXT_PROBES) {
       const text = `${p.text}\nexport const Parsers = parse.buildParsers<{ X: X }>();\n`;
